@@ -407,6 +407,7 @@ def run(ctx: Context, rep) -> None:
     # nothing read from the dataset's files / the environment is memoised
     from sa.rules import shared as _shm
     _shm.check_no_memo(ctx, rep, "C07.memo")
+    _shm.check_background_results(ctx, rep, "C07.background")
     # the native reader's unit of work: one shard per task, opened (not
     # decoded) in the worker, with the caller's thread count (same check as
     # C14.rust)
